@@ -340,6 +340,53 @@ fn main() {
         },
     );
 
+    // ------------------------------------------------------------------ partials shared between includers
+    // "`include` renders the named template against the includer's current variables" - for every
+    // include tag, also when one partial is reached from the same root along several paths (a shared
+    // partial, a diamond, the same include twice, in a loop). Such sets are acyclic and must
+    // register. (Seeded change C03-13 forgot to pop the walked template off the path of the
+    // include-cycle search, so a partial met a second time looked like a cycle.)
+    {
+        // (name, templates, entry, expected text with v = "V")
+        let sets: Vec<(&str, Vec<(&str, &str)>, &str, &str)> = vec![
+            ("diamond", vec![("root", "{% include \"a\" %}+{% include \"b\" %}"), ("a", "a({% include \"b\" %})"), ("b", "b{{ v }}")], "root", "a(bV)+bV"),
+            ("same-include-twice", vec![("root", "{% include \"b\" %}{% include \"b\" %}"), ("b", "b{{ v }}")], "root", "bVbV"),
+            ("shared-two-levels-down", vec![("root", "{% include \"a\" %}|{% include \"c\" %}"), ("a", "a[{% include \"c\" %}]"), ("c", "c<{% include \"b\" %}>"), ("b", "b{{ v }}")], "root", "a[c<bV>]|c<bV>"),
+            ("shared-in-loop-and-set", vec![("root", "{% for v in [1, 2] %}{% include \"b\" %}{% endfor %}{% set v = 3 %}{% include \"a\" %}"), ("a", "a({% include \"b\" %})"), ("b", "b{{ v }}")], "root", "b1b2a(b3)"),
+            ("shared-by-parent-and-child", vec![("base", "{% block m %}{% include \"b\" %}{% endblock %}/{% include \"b\" %}"), ("root", "{% extends \"base\" %}{% block m %}[{{ super() }}{% include \"b\" %}]{% endblock %}"), ("b", "b{{ v }}")], "root", "[bVbV]/bV"),
+        ];
+        let n_items = sets.len() as u64 * 2;
+        run.family(
+            Family::new(
+                "include-shared-partials",
+                n_items,
+                "5 acyclic template sets in which one partial is reached from the same root along two include paths (diamond, the same include twice, shared two levels down, in a loop and after a set, by a parent block and its override) x registration in one batch (as listed and reversed): accepted, and rendered against hand-written texts",
+            ),
+            |item, acc: &mut Acc| {
+                let (name, tpls, entry, want) = &sets[(item / 2) as usize];
+                let mut list: Vec<(String, String)> = tpls.iter().map(|(n, s)| (n.to_string(), s.to_string())).collect();
+                if item % 2 == 1 {
+                    list.reverse();
+                }
+                let case = || json!({"set": name, "templates": list.iter().map(|(n, s)| json!({"name": n, "source": s})).collect::<Vec<_>>(), "render": entry, "context": {"v": "V"}});
+                let mut t = tera::Tera::default();
+                let added = engine::add_templates(&mut t, &list);
+                if !added.is_ok() {
+                    acc.violation(format!("include-shared-partials:refused:{name}"), format!("an acyclic set was refused: {}", added.show()), case);
+                    acc.case(true, "refused");
+                    return;
+                }
+                let mut ctx = tera::Context::new();
+                ctx.insert("v", "V");
+                let out = engine::render(&t, entry, &ctx);
+                if out.ok() != Some(*want) {
+                    acc.violation(format!("include-shared-partials:wrong-output:{name}"), format!("rendered {}, expected {want:?}", out.show()), case);
+                }
+                acc.case(true, out.class());
+            },
+        );
+    }
+
     // ------------------------------------------------------------------ loop.* read inside a comprehension
     // The documentation says `loop.*` cannot be used in a list comprehension and leaves open what
     // happens when the comprehension stands in a `for` body (the engine answers with the enclosing
